@@ -14,6 +14,7 @@
 package main
 
 import (
+	"encoding/hex"
 	"errors"
 	"flag"
 	"fmt"
@@ -50,6 +51,13 @@ type gspec struct {
 	nts   string
 	prods []prod
 	prec  string // raw precedence text, "" if none
+	// names maps a symbol letter to the name the Go symbol gets (default: the letter itself); the protocol and the
+	// model only see letters/indices, so names with spaces or names that are concatenations of other names exercise
+	// every place where the implementation compares or hashes RENDERINGS of symbols
+	names map[byte]string
+	// nomodel: the case is too large for the extracted constructions; only the Go verdict chain, the certificates
+	// and the parses are checked
+	nomodel bool
 }
 
 func (g *gspec) header() string {
@@ -60,6 +68,21 @@ func (g *gspec) header() string {
 	h := fmt.Sprintf("g %c %s %s %s", g.start, g.terms, g.nts, strings.Join(ps, ","))
 	if g.prec != "" {
 		h += " prec=" + g.prec
+	}
+	if len(g.names) > 0 {
+		var ks []int
+		for k := range g.names {
+			ks = append(ks, int(k))
+		}
+		sort.Ints(ks)
+		var parts []string
+		for _, k := range ks {
+			parts = append(parts, fmt.Sprintf("%c:%x", byte(k), g.names[byte(k)]))
+		}
+		h += " names=" + strings.Join(parts, ",")
+	}
+	if g.nomodel {
+		h += " nomodel"
 	}
 	return h
 }
@@ -86,17 +109,53 @@ func parseHeader(h string) (*gspec, error) {
 		if strings.HasPrefix(x, "prec=") {
 			g.prec = x[5:]
 		}
+		if strings.HasPrefix(x, "names=") {
+			g.names = map[byte]string{}
+			for _, kv := range strings.Split(x[6:], ",") {
+				if len(kv) >= 2 && kv[1] == ':' {
+					if b, err := hex.DecodeString(kv[2:]); err == nil {
+						g.names[kv[0]] = string(b)
+					}
+				}
+			}
+		}
+		if x == "nomodel" {
+			g.nomodel = true
+		}
 	}
 	return g, nil
 }
 
 func isTerm(c byte) bool { return c >= 'a' && c <= 'z' }
 
+// curNames / curLetters: the symbol naming of the case being executed (cases run one at a time)
+var curNames map[byte]string
+var curLetters map[string]byte
+
+func setNames(g *gspec) {
+	curNames = g.names
+	curLetters = map[string]byte{}
+	for k, v := range g.names {
+		kind := "N"
+		if isTerm(k) {
+			kind = "T"
+		}
+		curLetters[kind+v] = k
+	}
+}
+
+func nameOf(c byte) string {
+	if n, ok := curNames[c]; ok {
+		return n
+	}
+	return string(c)
+}
+
 func symOf(c byte) grammar.Symbol {
 	if isTerm(c) {
-		return grammar.Terminal(string(c))
+		return grammar.Terminal(nameOf(c))
 	}
-	return grammar.NonTerminal(string(c))
+	return grammar.NonTerminal(nameOf(c))
 }
 
 func bodyOf(s string) grammar.String[grammar.Symbol] {
@@ -110,17 +169,17 @@ func bodyOf(s string) grammar.String[grammar.Symbol] {
 func (g *gspec) cfg() *grammar.CFG {
 	var ts []grammar.Terminal
 	for i := 0; i < len(g.terms); i++ {
-		ts = append(ts, grammar.Terminal(string(g.terms[i])))
+		ts = append(ts, grammar.Terminal(nameOf(g.terms[i])))
 	}
 	var ns []grammar.NonTerminal
 	for i := 0; i < len(g.nts); i++ {
-		ns = append(ns, grammar.NonTerminal(string(g.nts[i])))
+		ns = append(ns, grammar.NonTerminal(nameOf(g.nts[i])))
 	}
 	var ps []*grammar.Production
 	for _, p := range g.prods {
-		ps = append(ps, &grammar.Production{Head: grammar.NonTerminal(string(p.head)), Body: bodyOf(p.body)})
+		ps = append(ps, &grammar.Production{Head: grammar.NonTerminal(nameOf(p.head)), Body: bodyOf(p.body)})
 	}
-	return grammar.NewCFG(ts, ns, ps, grammar.NonTerminal(string(g.start)))
+	return grammar.NewCFG(ts, ns, ps, grammar.NonTerminal(nameOf(g.start)))
 }
 
 func (g *gspec) precedences() lr.PrecedenceLevels {
@@ -141,10 +200,10 @@ func (g *gspec) precedences() lr.PrecedenceLevels {
 		if len(ah) == 2 && ah[1] != "" {
 			for _, h := range strings.Split(ah[1], ",") {
 				if len(h) == 1 {
-					hs = append(hs, lr.PrecedenceHandleForTerminal(grammar.Terminal(h)))
+					hs = append(hs, lr.PrecedenceHandleForTerminal(grammar.Terminal(nameOf(h[0]))))
 				} else if len(h) >= 2 && h[1] == '=' {
 					hs = append(hs, &lr.PrecedenceHandle{Production: &grammar.Production{
-						Head: grammar.NonTerminal(h[:1]), Body: bodyOf(h[2:])}})
+						Head: grammar.NonTerminal(nameOf(h[0])), Body: bodyOf(h[2:])}})
 				}
 			}
 		}
@@ -160,8 +219,17 @@ func symLetter(s grammar.Symbol) string {
 	if t, ok := s.(grammar.Terminal); ok && t == grammar.Endmarker {
 		return "$"
 	}
+	kind := "N"
+	if s.IsTerminal() {
+		kind = "T"
+	}
+	if l, ok := curLetters[kind+n]; ok {
+		return string(l)
+	}
 	if len(n) == 1 {
-		return n
+		if _, renamed := curNames[n[0]]; !renamed {
+			return n
+		}
 	}
 	return "?" + strings.ReplaceAll(strings.ReplaceAll(n, " ", "_"), "|", "!") + "?"
 }
@@ -264,7 +332,7 @@ func (m *mockLexer) NextToken() (lexer.Token, error) {
 		return lexer.Token{Pos: p}, io.EOF
 	}
 	c := m.toks[m.i]
-	t := lexer.Token{Terminal: grammar.Terminal(string(c)), Lexeme: string(c), Pos: lexer.Position{Offset: m.i}}
+	t := lexer.Token{Terminal: grammar.Terminal(nameOf(c)), Lexeme: string(c), Pos: lexer.Position{Offset: m.i}}
 	m.i++
 	return t, nil
 }
@@ -510,6 +578,7 @@ func allStrings(terms string, n int, f func(string)) {
 }
 
 func runCase(w *tr.W, g *gspec, ops []string) {
+	setNames(g)
 	w.Begin("%s", g.header())
 	s := &session{g: g, bt: map[string]*built{}}
 	for _, op := range ops {
